@@ -94,12 +94,45 @@ func c38S(s string) string {
 	if s == "" {
 		return "[]"
 	}
+	if len(s) >= 16 && c38Dict != nil {
+		// long strings (hashes, ids, payloads, base64) are bound once per case
+		// with a let and referred to by name: coqc's cost is literal characters
+		if n, ok := c38Dict[s]; ok {
+			return n
+		}
+		n := fmt.Sprintf("s%d", len(c38DictOrder))
+		c38Dict[s] = n
+		c38DictOrder = append(c38DictOrder, s)
+		return n
+	}
+	return c38Lit(s)
+}
+
+func c38Lit(s string) string {
 	for i := 0; i < len(s); i++ {
 		if s[i] < 0x20 || s[i] > 0x7e || s[i] == '"' {
 			return B(s)
 		}
 	}
 	return `(str "` + s + `")`
+}
+
+// per-case dictionary of long literals (guarded by c38Mu)
+var (
+	c38Dict      map[string]string
+	c38DictOrder []string
+)
+
+// c38WithDict wraps a case term in the lets that bind its long literals.
+func c38WithDict(term string) string {
+	var b strings.Builder
+	b.WriteString("(")
+	for i, lit := range c38DictOrder {
+		fmt.Fprintf(&b, "let s%d := %s in ", i, c38Lit(lit))
+	}
+	b.WriteString(term)
+	b.WriteString(")")
+	return b.String()
 }
 
 var c38KnownKeys = map[string]bool{}
@@ -555,8 +588,9 @@ type c38World struct {
 	sf      *Surface
 	log     bytes.Buffer
 	hook    *vgirpc.AccessLogHook
-	nodes   [2]*vgirpc.HttpServer
-	servers [2]*vgirpc.Server
+	nodes   [3]*vgirpc.HttpServer // 0: hook + cache, 1: hook, no cache, 2: cache, NO hook until a set_hook op
+	servers [3]*vgirpc.Server
+	hooked  [3]bool
 	pipe    *vgirpc.Server
 	ts      *httptest.Server
 	client  *http.Client
@@ -579,15 +613,19 @@ var c38Key = []byte("c38-shared-token-key-0123456789ab")
 func c38NewWorld(ver string) *c38World {
 	w := &c38World{sf: newSurface(), streams: map[int]*c38Tokens{}}
 	w.hook = vgirpc.NewAccessLogHook(&w.log, ver)
-	mk := func(id string) *vgirpc.Server {
+	mkh := func(id string, hook bool) *vgirpc.Server {
 		s := NewScriptedServer(w.sf)
 		s.SetServiceName("ScriptSvc")
 		s.SetServerID(id)
-		s.SetDispatchHook(w.hook)
+		if hook {
+			s.SetDispatchHook(w.hook)
+		}
 		return s
 	}
+	mk := func(id string) *vgirpc.Server { return mkh(id, true) }
 	for i := range w.nodes {
-		w.servers[i] = mk(fmt.Sprintf("node%d", i))
+		w.hooked[i] = i != 2
+		w.servers[i] = mkh(fmt.Sprintf("node%d", i), w.hooked[i])
 		h, err := vgirpc.NewHttpServerWithKey(w.servers[i], c38Key)
 		if err != nil {
 			panic(err)
@@ -611,9 +649,9 @@ func c38NewWorld(ver string) *c38World {
 	w.ts = httptest.NewServer(http.HandlerFunc(func(rw http.ResponseWriter, r *http.Request) {
 		w.gotCL = r.ContentLength
 		w.remote = r.RemoteAddr
-		node := 0
-		if r.Header.Get("X-C38-Node") == "1" {
-			node = 1
+		node, _ := strconv.Atoi(r.Header.Get("X-C38-Node"))
+		if node < 0 || node >= len(w.nodes) {
+			node = 0
 		}
 		w.nodes[node].ServeHTTP(&c38Writer{ResponseWriter: rw, writes: &w.writes}, r)
 	}))
@@ -808,6 +846,11 @@ func (w *c38World) runOp(idx int, op *c38Op) (string, c38OpOut, []string) {
 		auth = c38Anon
 	}
 	switch op.Kind {
+	case "set_hook":
+		// SetDispatchHook on a node that has been serving without one
+		w.servers[op.Node].SetDispatchHook(w.hook)
+		w.hooked[op.Node] = true
+		return "C38.ONoop", c38OpOut{}, tags
 	case "unary", "init", "rejected":
 		method := op.Method
 		if op.Kind == "init" {
@@ -871,7 +914,16 @@ func (w *c38World) runOp(idx int, op *c38Op) (string, c38OpOut, []string) {
 				sid = v.S // crypto/rand oracle: the id minted at /init
 			}
 		}
-		return App("C38.OInit", Nat(op.Node), w.reqEnvCoq(op, method, payload, e, recs, true, len(body), auth), c38S(sid), Bool(opened)), out, append(tags, "err-"+e.Kind)
+		hooked := w.hooked[op.Node]
+		sidTerm := c38S(sid)
+		if !hooked {
+			// nothing logged at /init: the minted id is only observable later. The
+			// oracle is the id of the stream's FIRST logged continuation, filled in
+			// by c38Run once the history has run (every later record must agree).
+			sidTerm = fmt.Sprintf("@@SID%d@@", idx)
+			tags = append(tags, "init-unhooked")
+		}
+		return App("C38.OInit", Nat(op.Node), w.reqEnvCoq(op, method, payload, e, recs, true, len(body), auth), sidTerm, Bool(opened), Bool(hooked)), out, append(tags, "err-"+e.Kind)
 
 	case "cont":
 		tk := w.streams[op.Of]
@@ -944,7 +996,7 @@ func (w *c38World) runOp(idx int, op *c38Op) (string, c38OpOut, []string) {
 			}
 		}
 		return App("C38.OCont", Nat(op.Node), Nat(op.Of), c38TamperCoq(op.Tamper), Bool(op.Cancel),
-			w.reqEnvCoq(op, method, nil, e, recs, true, len(body), auth), c38S("")), out, append(tags, "err-"+e.Kind)
+			w.reqEnvCoq(op, method, nil, e, recs, true, len(body), auth), c38S(""), Bool(w.hooked[op.Node])), out, append(tags, "err-"+e.Kind)
 
 	case "pipe_unary", "pipe_stream":
 		method := op.Method
@@ -1003,6 +1055,16 @@ func (w *c38World) runOp(idx int, op *c38Op) (string, c38OpOut, []string) {
 	panic("c38: bad op kind " + op.Kind)
 }
 
+func c38Uniq(xs []string) []string {
+	var out []string
+	for i, x := range xs {
+		if i == 0 || x != xs[i-1] {
+			out = append(out, x)
+		}
+	}
+	return out
+}
+
 func emptyBatchOf(schema *arrow.Schema) arrow.RecordBatch {
 	return array.NewRecordBatch(schema, nil, 0)
 }
@@ -1011,6 +1073,8 @@ func c38Run(in c38In) CaseOut {
 	c38Mu.Lock()
 	defer c38Mu.Unlock()
 	c38Ver = in.Ver
+	c38Dict, c38DictOrder = map[string]string{}, nil
+	defer func() { c38Dict, c38DictOrder = nil, nil }()
 	var world *c38World
 	var ops, obs []string
 	var outs []c38OpOut
@@ -1065,7 +1129,48 @@ func c38Run(in c38In) CaseOut {
 	for _, o := range outs {
 		nrec += len(o.Records)
 	}
-	return CaseOut{Coq: Pair(List(ops), List(obs)), Tags: tags, Nontrivial: nrec > 0, Obs: outs}
+	// stream-id oracle of every /init that logged nothing: the id of the stream's
+	// first logged continuation (a well-formed dummy when nothing was ever logged)
+	for i := range in.Ops {
+		ph := fmt.Sprintf("@@SID%d@@", i)
+		if in.Ops[i].Kind != "init" || !strings.Contains(ops[i], ph) {
+			continue
+		}
+		sid := strings.Repeat("0", 32)
+	find:
+		for j := i + 1; j < len(in.Ops); j++ {
+			if in.Ops[j].Kind == "cont" && in.Ops[j].Of == i {
+				for _, r := range outs[j].Records {
+					if v, ok := c38Get(r, "stream_id"); ok {
+						sid = v.S
+						break find
+					}
+				}
+			}
+		}
+		ops[i] = strings.Replace(ops[i], ph, c38S(sid), 1)
+	}
+	// streams with at least two logged records, at least one of them not the init's
+	for i := range in.Ops {
+		if in.Ops[i].Kind != "init" {
+			continue
+		}
+		n := len(outs[i].Records)
+		for j := i + 1; j < len(in.Ops); j++ {
+			if in.Ops[j].Kind == "cont" && in.Ops[j].Of == i {
+				n += len(outs[j].Records)
+			}
+		}
+		if n >= 2 {
+			tags = append(tags, "stream-2plus-records")
+			if len(outs[i].Records) == 0 {
+				tags = append(tags, "stream-2plus-records-init-unlogged")
+			}
+		}
+	}
+	sort.Strings(tags)
+	tags = c38Uniq(tags)
+	return CaseOut{Coq: c38WithDict(Pair(List(ops), List(obs))), Tags: tags, Nontrivial: nrec > 0, Obs: outs}
 }
 
 // ---------------------------------------------------------------- generators
@@ -1247,7 +1352,7 @@ func c38GenCommon(r *rand.Rand, op *c38Op, principal string) {
 func c38GenHistory(r *rand.Rand, tier string) c38In {
 	in := c38In{Ver: []string{"", "1.2.3", "v0.0.0-dev"}[r.Intn(3)]}
 	principal := []string{"alice", "", "svc-account"}[r.Intn(3)]
-	nops := 2 + r.Intn(7)
+	nops := 2 + r.Intn(5)
 	if tier == "thorough" {
 		nops = 2 + r.Intn(14)
 	}
@@ -1266,6 +1371,9 @@ func c38GenHistory(r *rand.Rand, tier string) c38In {
 			}
 		case k < 8 || (len(open) == 0 && k < 15):
 			op.Kind, op.Node, op.X = "init", r.Intn(2), int64(r.Intn(1000))
+			if r.Intn(4) == 0 {
+				op.Node = 2 // no hook there until a set_hook op
+			}
 			op.Method = []string{"prod", "exch", "prod_h", "exch_h"}[r.Intn(4)]
 			ex := strings.HasPrefix(op.Method, "exch")
 			op.Stream = &StreamScript{Init: CallScript{Err: nil}, Turns: c38GenTurns(r, ex), Canceller: r.Intn(2) == 0}
@@ -1279,6 +1387,9 @@ func c38GenHistory(r *rand.Rand, tier string) c38In {
 			open = append(open, i)
 		case k < 15:
 			op.Kind, op.Node = "cont", r.Intn(2)
+			if r.Intn(5) == 0 {
+				op.Node = 2
+			}
 			op.Of = open[r.Intn(len(open))]
 			op.Method = in.Ops[op.Of].Method
 			op.Vals = []int64{int64(r.Intn(10))}
@@ -1300,6 +1411,10 @@ func c38GenHistory(r *rand.Rand, tier string) c38In {
 				op.Ticks = 6 // enough ticks for any producer script
 			}
 		default:
+			if r.Intn(2) == 0 {
+				op = c38Op{Kind: "set_hook", Node: 2, Trace: c38Trace{Mode: "none"}, Redactor: c38Red{Mode: "default"}}
+				break
+			}
 			op.Kind, op.Method = "rejected", "u_int"
 			op.Reject = []string{"unknown_method", "auth", "content_type"}[r.Intn(3)]
 			op.Call = &CallScript{}
@@ -1399,6 +1514,32 @@ func c38Gen(r *rand.Rand, n int, tier string) []c38In {
 		return in
 	}
 	out = append(out, mkStream("exch", false), mkStream("prod", false))
+	// hooks that are not everywhere / not from the start: /init served by a node
+	// with no dispatch hook (node 2), continuations logged elsewhere or after a
+	// late SetDispatchHook — every logged record of the stream must carry one id
+	mkLate := func(method string, variant int) c38In {
+		tr, rd := c38Trace{Mode: "none"}, c38Red{Mode: "default"}
+		turns := []TurnScript{}
+		for v := int64(1); v <= 12; v++ {
+			turns = append(turns, TurnScript{Act: "emit", Value: v})
+		}
+		cont := func(node int, v int64) c38Op {
+			return c38Op{Kind: "cont", Node: node, Of: 0, Method: method, Vals: []int64{v}, Trace: tr, Redactor: rd, Auth: au}
+		}
+		in := c38In{Ops: []c38Op{{Kind: "init", Node: 2, Method: method, X: 2, Stream: &StreamScript{Turns: turns}, Trace: tr, Redactor: rd, Auth: au}}}
+		switch variant {
+		case 0: // logged only by the cache-less node: the call token is opened on every turn
+			in.Ops = append(in.Ops, cont(1, 1), cont(1, 2), cont(1, 3))
+		case 1: // logged by the caching node: one token open, then cache hits
+			in.Ops = append(in.Ops, cont(0, 1), cont(0, 2), cont(1, 3))
+		case 2: // hook installed on the same node after the stream began
+			in.Ops = append(in.Ops, cont(2, 1), c38Op{Kind: "set_hook", Node: 2, Trace: tr, Redactor: rd}, cont(2, 2), cont(2, 3), cont(0, 4))
+		}
+		return in
+	}
+	for v := 0; v < 3; v++ {
+		out = append(out, mkLate("exch", v), mkLate("prod", v))
+	}
 	// the chunked-request finding: a continuation and a unary call sent without Content-Length
 	out = append(out, c38In{Ops: []c38Op{{Kind: "unary", Method: "u_int", X: 1, Call: &CallScript{}, Chunked: true,
 		Trace: c38Trace{Mode: "none"}, Redactor: c38Red{Mode: "default"}, Auth: au}}})
@@ -1425,7 +1566,7 @@ func c38Gen(r *rand.Rand, n int, tier string) []c38In {
 }
 
 func init() {
-	Register("C38", "boundary cases (each redactor x debug, a stream spanning both nodes with tampered/dropped tokens and a cancel, a chunked request), then 40% lists of 1-4 synthetic dispatch infos fed to AccessLogHook directly (all fields, egress recorder via the real countingResponseWriter) and 60% histories of 2-8 requests (HTTP unary/init/continuations on two nodes sharing the token key, pipe unary/stream, refused requests) with scripted outcomes incl. panics, per-request debug flag, trace provider (valid / dashed / uppercase / short / one-sided / panicking), claim sets and redactors, Accept-Encoding; a case is non-trivial when at least one record was logged; distinct = distinct input JSON",
+	Register("C38", "boundary cases (each redactor x debug, a stream spanning both nodes with tampered/dropped tokens and a cancel, a chunked request, streams whose /init is served by a node with NO dispatch hook and whose continuations are logged by other nodes or after a late SetDispatchHook), then 40% lists of 1-4 synthetic dispatch infos fed to AccessLogHook directly (all fields, egress recorder via the real countingResponseWriter) and 60% histories of 2-6 requests (2-15 in the thorough tier) (HTTP unary/init/continuations on three nodes sharing the token key — cache+hook, hook only, cache with the hook installed late or never —, pipe unary/stream, refused requests) with scripted outcomes incl. panics, per-request debug flag, trace provider (valid / dashed / uppercase / short / one-sided / panicking), claim sets and redactors, Accept-Encoding; a case is non-trivial when at least one record was logged; distinct = distinct input JSON",
 		c38Gen, c38Run)
 }
 
